@@ -110,6 +110,9 @@ func (c *Ctx) codecRun() map[string]*simpleVerdict {
 						m.steps = 0
 						v.runs++
 						where := fmt.Sprintf("%s quote state, quote %q, string %q", st.name, string(q), s)
+						if i%301 == 0 {
+							noteSample("CODEC.roundtrip/"+st.name, where)
+						}
 						// decoding any string never fails
 						if _, out := m.Call(dec, state, s, int64(q)); out.kind == "panic" {
 							v.bad = where + ": DecodeString panics: " + out.why
